@@ -16,6 +16,8 @@ import subprocess
 from harness import common
 from harness.common import Model, canon, impl_result
 
+FACTS = ()
+
 RULE = ("exhaustive enumeration of key-sequence pairs over a small universe (distinct and "
         "repeating), keys rendered as str / tuple / mixed; plus seeded random longer pairs; "
         "a case is distinct by (suite, rendered input); all are non-trivial except the empty pair")
